@@ -188,7 +188,7 @@ def check_logs(res, f, rng):
     inv = f['strings']
     for _ in range(4):
         tid = rng.choice((None, 0, 1, 2, 77, 4242))
-        proc = rng.choice((None, 'launchd', 'Safari', '123', '456', '1', 'nosuch', ''))
+        proc = rng.choice((None, 'launchd', 'Safari', '123', '456', '1', '0', 'nosuch', ''))
         p = PyKdebugParser()
         p.filter_tid = tid
         p.filter_process = proc
@@ -259,7 +259,7 @@ def check_cli_logs(res, f, rng, tmpdir):
     from pykdebugparser.__main__ import cli
     inv = f['strings']
     tid = rng.choice((None, None, 0, 1, 77))
-    proc = rng.choice((None, None, 'launchd', '123', 'nosuch'))
+    proc = rng.choice((None, None, 'launchd', '123', '0', 'nosuch'))
     path = os.path.join(tmpdir, 'dump.bin')
     with open(path, 'wb') as fd:
         fd.write(f['data'])
